@@ -12,6 +12,7 @@ import x11dl
 import x11dr
 import x11fl
 import x11fw
+import x13zb
 
 
 def _fresh_overlay(ctx):
@@ -24,6 +25,9 @@ def _fresh_overlay(ctx):
 
 def run(ctx, replay):
     if replay:
+        if x13zb.is_replay(replay):      # a recorded history of the zone / breaker tier: that tier's own replay entry
+            x13zb.replay_file(ctx, replay)
+            return
         c11_core.replay_core(ctx, replay)
         return
     c11_core.run_core(ctx)
@@ -53,6 +57,12 @@ def run(ctx, replay):
     ctx.overlay_tags.add("x11fl")
     _fresh_overlay(ctx)
     x11fl.run_tier(ctx)
+    # "expired, cancelled ... resolution surfaces as SERVFAIL to that client only; it neither wedges nor fails other clients":
+    # what earlier clients' own deadlines, hang-ups and faster peers leave behind in the state request trees share -- the
+    # per-server circuit breaker and the RFC 9520 zone failure (ZoneBrk.tla: histories of request trees against one zone,
+    # "only upstream failures count"; counter-examples of the model mutants played on the real full pipeline)
+    _fresh_overlay(ctx)
+    x13zb.run_tier(ctx)
     if ctx.tier == "thorough":
         # (quick: the same driver runs in C12 and C19 for their families; the c11 family is judged in the thorough tier)
         ctx.overlay_tags.add("x11fw")
